@@ -39,6 +39,8 @@ SKEW = [
     "`+%}` (disable trim_blocks) and `{{+`: 3.x only",
     "line boundaries other than LF/CR/CRLF (VT FF FS GS RS NEL LS PS) in template source: 2.11.dev splits with str.splitlines()",
     "filters/tests added after 2.11: `items`, `is boolean/integer/float/true/false/filter/test`",
+    "`wordwrap` (keeps existing newlines since 2.11 final) and `{#+` under lstrip_blocks (2.11.dev strips the comment's indentation anyway)",
+    "not skew but excluded as nondeterministic in BOTH engines: `include ... without context` inside a macro prints a generator repr with an address",
 ]
 
 
@@ -93,17 +95,18 @@ def runs_for(case):
     """the renderings of one case: (environment kind, trim_blocks, lstrip_blocks, keep_trailing_newline, source newline style)"""
     k = case["k"]
     src = "".join(case["ps"])
+    q = _W.get("quick", False)  # the quick tier renders each case under fewer (not other) settings
     if k == "same":
-        rs = (RAW8 if src.endswith("\n") or LOADER_KINDS & set(case["ks"]) else RAW4) + CGE3 + (NLX if "\n" in src else [])
+        rs = (RAW8 if src.endswith("\n") or LOADER_KINDS & set(case["ks"]) else RAW4) + (CGE3[:2] if q else CGE3) + ((NLX[:1] if q else NLX) if "\n" in src else [])
         if case.get("plus"):
             rs = [r for r in rs if r["lb"]]
         return rs
     if k == "marker":
-        return RAW4 + [R("raw", 0, 0, 0), R("cge", 1, 1, None), R("cge", 0, 0, None)] + (NLX if "\n" in src else [])
+        return RAW4 + [R("raw", 0, 0, 0), R("cge", 1, 1, None)] + ([] if q else [R("cge", 0, 0, None)]) + ((NLX[:1] if q else NLX) if "\n" in src else [])
     return CGE4
 
 
-def init_engines(tables):
+def init_engines(tables, quick=False):
     import jinja2 as S
     import nunavut
     import nunavut.jinja.jinja2 as B
@@ -120,7 +123,7 @@ def init_engines(tables):
     mctx = {k: "".join(map(chr, v)) for k, v in tables["mstrings"].items()}
     mctx.update({"n": 3, "xs": [1, 2], "c1": True, "c2": False, "v": "V"})
     _W.update(B=B, S=S, builder=CodeGenEnvironmentBuilder, lctx=LanguageContextBuilder().set_target_language("c").create(),
-              loader=dict(tables["loader"]), ctxs=ctxs, mctx=mctx, envs={})
+              loader=dict(tables["loader"]), ctxs=ctxs, mctx=mctx, envs={}, quick=quick)
     return B, S
 
 
@@ -490,7 +493,7 @@ def load_universe(ctx):
         for name in extra:
             cs = sorted((c for c in sim[name] if c["k"] != "tables"), key=lambda c: json.dumps(c, sort_keys=True))
             uniq = [c for i, c in enumerate(cs) if i == 0 or c != cs[i - 1]]
-            got[name + "(seeded subset)"] = ctx.rng.sample(uniq, min(len(uniq), 2500))
+            got[name + "(seeded subset)"] = ctx.rng.sample(uniq, min(len(uniq), 1500))
     tables = None
     for cs in got.values():
         for c in cs:
@@ -528,7 +531,7 @@ def run(ctx):
 
     # 2. spec -> code: the universe
     tables, uni = load_universe(ctx)
-    init_engines(tables)
+    init_engines(tables, ctx.quick)
     keep = {}
     pool = multiprocessing.get_context("fork").Pool(NCPU)
     judge = Judge(ctx, pool)
@@ -598,10 +601,12 @@ def note_readings(ctx, uni):
             mo, po = "".join(map(chr, m["out"])), "".join(map(chr, p["out"]))
             pre, post = case["pre"], case["post"]
             ok = False
+            cands = []
             for k in range(len(post) + 1):
                 if post[:k].strip(" \t\r\n"):
                     break
-                s = post[k:]
+                cands += [post[k:]] + ([post[k:-1]] if post.endswith("\n") and k < len(post) else [])
+            for s in cands:
                 if po.startswith(pre) and po.endswith(s) and len(pre) + len(s) <= len(po):
                     c = po[len(pre):len(po) - len(s)]
                     if mo == pre + strict_lp(c, case["ws"]) + s:
